@@ -46,7 +46,10 @@ NextFree == LET idx == {i \in 1..Cardinality(Objects) : content[Order[i]] = "non
 \* "shared-item": two roots that use one type object @item, whose text refers to @id; the roots define @id differently
 \* (a number on one, a string on the other: idNum and idStr are both registered under the name @id)
 PlanContents == IF Plan = "shared-heir" THEN <<"usesHeir", "heir", "usesHeir", "typeObj">>
-                ELSE IF Plan = "shared-item" THEN <<"usesItem", "item", "usesItem", "idNum", "idStr">> ELSE <<>>
+                ELSE IF Plan = "shared-item" THEN <<"usesItem", "item", "usesItem", "idNum", "idStr">>
+                \* "shared-parent": a root that inherits from two types, and another root (created with keys optional by
+                \* default) that inherits from the first of them only - the parent object is shared by both
+                ELSE IF Plan = "shared-parent" THEN <<"heirOfTwo", "typeObj", "typeObj2", "heirOfOne">> ELSE <<>>
 New(c) == /\ NextFree # 0
           /\ (Plan # "" => c = PlanContents[NextFree])
           /\ LET o == Order[NextFree] IN
@@ -56,8 +59,8 @@ New(c) == /\ NextFree # 0
 
 \* under the plan "shared-item" the objects are created first, only the two roots are asked, and a root is given the
 \* shared type and one of the two definitions of @id (the plan is about what the roots answer, not about misuse)
-ItemPlan == Plan = "shared-item"
-ItemRoot(o) == content[o] = "usesItem"
+ItemPlan == Plan \in {"shared-item", "shared-parent"}
+ItemRoot(o) == content[o] \in {"usesItem", "heirOfTwo", "heirOfOne"}
 
 \* a call that compiles the object on first use
 Call(op, o) == /\ content[o] # "none"
